@@ -772,13 +772,8 @@ TRUSTED_NOTE = ('C17: tolower()/isdigit() are modelled as the ASCII-only "C"-loc
                 'sockets, tun, zlib and login_calculate replaced, see C14)')
 
 
-MAIN_WRAPS = ['open_tun', 'exit', 'errx', 'err', 'check_superuser', 'get_addr', 'read_password', 'time']
-CLIMAIN = dict(harness=['hmain.c', 'h_c17cli.c'], repo=vlib.COMMON_SRCS + ['util.c', 'client.c'], wraps=MAIN_WRAPS)
-SRVMAIN = dict(harness=['hmain.c', 'h_c17srv.c'], repo=vlib.COMMON_SRCS + ['user.c', 'fw_query.c'], wraps=MAIN_WRAPS)
-
-
-def aline(args):
-    return 'A ' + ' '.join(hexs(a) for a in args)
+import mainlib
+from mainlib import CLIMAIN, SRVMAIN, aline
 
 
 def startup_stage(rep, ctx, cases):
@@ -790,12 +785,12 @@ def startup_stage(rep, ctx, cases):
     doms = []
     seen = set()
     vl = [c for c in cases if c.startswith('V ')]
-    lim = 6000 if rep.tier == 'quick' else 60000
-    # the boundary / character-class / random lines sit at the end of the V block; a slice of the exhaustive block first
-    for c in vl[:40] + vl[-(lim // 20):]:
+    lim = 8000 if rep.tier == 'quick' else 60000
+    # a slice of the exhaustive short-string block, then every boundary / character-class / random / mutated string (longer than 8)
+    for j, c in enumerate(vl):
         for h in c.split(' ')[2].split(','):
             d = unhex_item(h)
-            if d not in seen and b'\0' not in d and len(d) < 900:
+            if (j < 4 or len(d) > 8) and d not in seen and b'\0' not in d and len(d) < 900:
                 seen.add(d)
                 doms.append(d)
     doms = doms[:lim]
@@ -825,6 +820,13 @@ def startup_stage(rep, ctx, cases):
             got = o.startswith('ACCEPT')
             exp = ref_valid(d, bool(w))
             acc[w] += got
+            if got and exp:
+                f = mainlib.fields(o) or {}
+                if f.get('topdomain') != hexs(d):
+                    rep.add_violation('startup:%s-domain-altered' % which, 'main() of %s accepts the tunnel domain %r but goes on with %r' % (
+                        which, d, bytes.fromhex(f['topdomain']) if f.get('topdomain') not in (None, 'UNSET', '-') else f.get('topdomain')),
+                        dict(kind='input', driver=which + '-main', case=lines[i], observed=o, expected='topdomain=' + hexs(d)))
+                    break
             if got != exp:
                 key = 'startup:%s-%s' % (which, 'accepts-invalid' if got else 'rejects-valid')
                 rep.add_violation(key, 'the real main() of %s %s the tunnel domain %r; the property text (%s) %s it' % (
